@@ -18,8 +18,7 @@ EXPLANATION = (
 
 def run(ctx):
     src = ctx.src
-    ai = EngineAI(src)
-    ai.run_all()
+    ai = EngineAI.shared(src)
     m = ai.m
     ctx.rule('C09.R1', 'on every path of every handler: at most one commit(); every add/delete/mutation of a stored or new object precedes it')
     ctx.rule('C09.R2', 'every normal return of a handler that mutated, added or deleted is reached after the commit (nothing pending): an acknowledged operation is committed')
